@@ -46,12 +46,18 @@ LongClose(s, i, lvl) ==
 RECURSIVE BsBack(_, _)
 BsBack(s, j) == IF j >= 1 /\ s[j] = 92 THEN 1 + BsBack(s, j - 1) ELSE 0
 Escaped(s, j) == (BsBack(s, j - 1) % 2) = 1
+\* a newline inside a quoted string is allowed when it is escaped, or when it belongs to the
+\* whitespace skipped by a preceding \z escape
+ZWs == {32, 9, 10, 13, 11, 12}
+RECURSIVE BackOverWs(_, _)
+BackOverWs(s, j) == IF j >= 1 /\ s[j] \in ZWs THEN BackOverWs(s, j - 1) ELSE j      \* last non-whitespace index at or before j
+InZSkip(s, j) == LET k == BackOverWs(s, j - 1) IN k >= 2 /\ s[k] = 122 /\ s[k - 1] = 92 /\ (BsBack(s, k - 1) % 2) = 1
 RECURSIVE StrEnd(_, _, _)
 StrEnd(s, i, q) ==   \* i = index after the opening quote; result = index after closing quote, 0 if none
   LET j == Find(s, i, {q, 10}) IN
     IF j > Len(s) THEN 0
     ELSE IF Escaped(s, j) THEN StrEnd(s, j + 1, q)
-    ELSE IF s[j] = 10 THEN 0
+    ELSE IF s[j] = 10 THEN (IF InZSkip(s, j) THEN StrEnd(s, j + 1, q) ELSE 0)
     ELSE j + 1
 NumEnd(s, i) ==
   LET c == At(s, i) c2 == At(s, i+1) IN
